@@ -225,8 +225,8 @@ func (tr *Transaction) Commit() error {
 			} else {
 				// Success. Set db.seq.
 				verifAt("t.installed", tr.seq)
-				tr.db.setSeq(tr.seq)
 				verifAt("t.publish", tr.seq)
+				tr.db.setSeq(tr.seq)
 				break
 			}
 		}
